@@ -225,10 +225,17 @@ func VerifE30Expand() {
 	rq := reqs[ri]
 	vt.Event("expand " + rq.obj + "#" + rq.rel)
 	vt.Event(u.Describe())
+	// "ctx" = k: the first k valid candidates travel as contextual tuples of the request instead of being
+	// stored; the reference treats them like stored tuples
+	var ctxTuples *openfgav1.ContextualTupleKeys
+	if k := vt.ParamInt("ctx", 0); k > 0 {
+		ctxTuples = &openfgav1.ContextualTupleKeys{TupleKeys: st.SplitContextual(k)}
+	}
 	resp, xerr := q.Execute(ctx, &openfgav1.ExpandRequest{
 		StoreId:              "01HVMMBCMGZNT3SED4Z17ECXCB",
 		AuthorizationModelId: m.GetId(),
 		TupleKey:             &openfgav1.ExpandRequestTupleKey{Object: rq.obj, Relation: rq.rel},
+		ContextualTuples:     ctxTuples,
 	})
 	vt.Reach("expanded")
 	vt.Assert(xerr == nil && resp != nil, "expand: valid request failed")
